@@ -60,6 +60,10 @@ def _column(rng, n, style):
         for _ in range(rng.choice([1, 1, 2])):
             col[rng.randrange(n)] = Fraction(rng.choice([-1, 1, 1]) * 2 ** rng.randint(8, 16))
         return col
+    if style == "outlier_pos":   # one large positive outlier: acceleration close to its maximum 1/6
+        col = [Fraction(rng.randint(-4, 4), 4) for _ in range(n)]
+        col[rng.randrange(n)] = Fraction(2 ** rng.randint(8, 12))
+        return col
     if style == "dyadic":
         return [Fraction(rng.randint(-32, 32), 4) for _ in range(n)]
     if style == "float":
@@ -82,6 +86,9 @@ def _hat(rng, col, style, exact):
         return rng.choice(fin)
     if style == "median":
         return sorted(fin)[len(fin) // 2]
+    if style == "second":     # just below the largest value: p0 = (n-1)/n, z0 large and finite
+        below = [x for x in fin if x < hi]
+        return max(below) if below else hi
     if style == "min":
         return lo
     if style == "max":
@@ -124,16 +131,16 @@ def _one_case(rng, k, force=None):
     cols, hats, cstyles, hstyles = [], [], [], []
     allnan = rng.random() < 0.03 and size >= 1
     for j in range(size):
-        st = rng.choice(styles_e if exact else styles_f)
+        st = force.get("style") or rng.choice(styles_e if exact else styles_f)
         col = _column(rng, n, st)
-        if rng.random() < 0.3:   # NaNs
+        if rng.random() < 0.3 and "style" not in force:   # NaNs
             for i in range(n):
                 if rng.random() < 0.2:
                     col[i] = None
         if allnan and j == size - 1:
             col = [None] * n
             st = "allnan"
-        hs = rng.choice(["inside", "replicate", "replicate", "median", "min", "max", "below", "above"])
+        hs = force.get("hat_style") or rng.choice(["inside", "replicate", "replicate", "median", "min", "max", "below", "above", "second"])
         cols.append(col)
         h = _hat(rng, col, hs, exact)
         hats.append(h if exact else Fraction(float(h)))
@@ -147,6 +154,8 @@ def _one_case(rng, k, force=None):
         a_main = None
     else:
         a_main = rng.choice(DY_ALPHAS) if (exact and rng.random() < 0.6) else Fraction(rng.choice(ANY_ALPHAS))
+        if "alpha" in force:
+            a_main = Fraction(force["alpha"])
         alpha = enc(a_main)
     case = {"N": n, "Y": Y, "theta": [enc(x) for x in theta], "hat": [enc(h) for h in hats],
             "alpha": alpha, "method": method, "exact": bool(exact),
@@ -179,6 +188,11 @@ def gen_cases(rng, tier):
             cases.append(_one_case(rng, k, {"method": method, "N": n1, "Y": [], "exact": True}))
             k += 1
         cases.append(_one_case(rng, k, {"method": method, "Y": [2, 2], "exact": True}))
+        k += 1
+    # bca beyond / near the pole of the acceleration term (|a (z0 + z_alpha)| >= 1): formula agreement is claimed there too
+    for tiny in (1e-6, 1e-9, 1e-12, 1e-9):
+        cases.append(_one_case(rng, k, {"method": "bca", "N": rng.randint(30, 40), "Y": [], "exact": True,
+                                        "style": "outlier_pos", "hat_style": "second", "alpha": tiny}))
         k += 1
     while len(cases) < n:
         cases.append(_one_case(rng, k))
